@@ -159,6 +159,7 @@ func (c *checker) blockIs(h uint64, hdr *types.SignedHeader, data *types.Data, w
 
 // blockAt checks a (header, data) pair returned for height h against the model.
 func (c *checker) blockAt(call string, h uint64, hdr *types.SignedHeader, data *types.Data, err error, wantData bool) {
+	defer func() { scribbleSignedHeader(hdr); scribbleData(data) }() // once judged (alias.go)
 	if _, ok := c.m.Hdr[h]; !ok {
 		c.hit("read-missing")
 		if err == nil {
@@ -186,6 +187,7 @@ func (c *checker) blockAt(call string, h uint64, hdr *types.SignedHeader, data *
 }
 
 func (c *checker) sigAt(call string, h uint64, sig *types.Signature, err error) {
+	defer scribbleSignature(sig)
 	want, ok := c.m.Sig[h]
 	if !ok {
 		c.hit("read-missing")
@@ -283,7 +285,10 @@ func (c *checker) byHash(kind string, hash []byte) {
 				c.count("overwritten_hash_lookup_fails", 1)
 				return
 			}
-			if p := c.blockIs(h, hdr, data, true); p != "" {
+			p := c.blockIs(h, hdr, data, true)
+			scribbleSignedHeader(hdr)
+			scribbleData(data)
+			if p != "" {
 				c.fail("read-by-hash", "%s: the header with this hash was saved at height %d and overwritten there since; the lookup returned neither an error nor the block now at that height: %s", call, h, p)
 				return
 			}
@@ -308,7 +313,9 @@ func (c *checker) byHash(kind string, hash []byte) {
 			c.count("overwritten_hash_lookup_fails", 1)
 			return
 		}
-		if sig == nil || !bytes.Equal(*sig, c.m.Sig[h]) {
+		same := sig != nil && bytes.Equal(*sig, c.m.Sig[h])
+		scribbleSignature(sig)
+		if !same {
 			c.fail("read-by-hash", "%s: the header with this hash was saved at height %d and overwritten there since; the lookup returned neither an error nor the signature now at that height", call, h)
 			return
 		}
